@@ -233,6 +233,22 @@ def _opt(d, k):
     return [d[k]] if k in d else []
 
 
+def _bvenc(v):
+    """The networkx `bipartite` marker is an opaque node attribute (any hashable).  Model: an integer code.  bool -> 0/1 (Python
+    itself identifies True with 1: `True == 1`, same hash), int -> itself, str -> a code above 10^6 computed from its bytes."""
+    if isinstance(v, bool):
+        return int(v)
+    if isinstance(v, int):
+        return v
+    if isinstance(v, str):
+        return 10 ** 6 + int.from_bytes(v.encode("utf-8"), "big")
+    raise AssertionError(v)
+
+
+def _optbv(d):
+    return [_bvenc(d["bipartite"])] if "bipartite" in d else []
+
+
 def _optmol(d):
     return [_molenc(d["mol"])] if "mol" in d else []
 
@@ -242,7 +258,7 @@ def _nid(n):
 
 
 def _bip_obs(G):
-    nodes = [[_nid(n), _opt(d, "bipartite"), _opt(d, "label"), _opt(d, "kind"), _optmol(d), _opt(d, "edge_id")]
+    nodes = [[_nid(n), _optbv(d), _opt(d, "label"), _opt(d, "kind"), _optmol(d), _opt(d, "edge_id")]
              for n, d in G.nodes(data=True)]
     arcs = [[_nid(u), _nid(v), _opt(d, "stoich"), _opt(d, "role")] for u, v, d in G.edges(data=True)]
     return [S(nodes), S(arcs)]
@@ -254,6 +270,16 @@ def _sg_obs(G):
              {k: int(c) for k, c in d["stoich_r_map"].items()}, {k: int(c) for k, c in d["stoich_p_map"].items()}]
             for u, v, d in G.edges(data=True)]
     return [S(nodes), S(arcs)]
+
+
+def _import_kwargs(v):
+    """keyword arguments of bipartite_to_hypergraph for a "bip" view: mol_attr, and (optional 5th element) non-default
+    species_prefix / reaction_prefix / default_rule — irrelevant for exported graphs, whose nodes carry `kind`"""
+    kw = {"mol_attr": ("mol" if v[3] else None)}
+    if len(v) > 4:
+        io = v[4]
+        kw.update(species_prefix=io["isp"], reaction_prefix=io["irp"], default_rule=io["dr"])
+    return kw
 
 
 def _export_bip(H, fl):
@@ -294,11 +320,11 @@ def _run_view(H, v, ret=None):
         return x
     k = v[0]
     if k == "bip":
-        _, fl, do_imp, mol_attr = v
+        fl, do_imp = v[1], v[2]
         G = keep(_export_bip(H, fl))
         out = [_bip_obs(G)]
         if do_imp:
-            out.append(_guard(lambda: _net_obs(keep(cv.bipartite_to_hypergraph(G, mol_attr=("mol" if mol_attr else None))))))
+            out.append(_guard(lambda: _net_obs(keep(cv.bipartite_to_hypergraph(G, **_import_kwargs(v))))))
         return out
     if k == "sg":
         _, inc_mol, mol_attr = v
@@ -403,13 +429,16 @@ def _net(net):
 def _view(v):
     k = v[0]
     if k == "bip":
-        _, fl, do_imp, mol_attr = v
+        fl, do_imp, mol_attr = v[1], v[2], v[3]
         if do_imp and not fl["eid"]:
             return None                      # ids synthesised from hash(): outside the model's domain
         f = "(BFlags %s %s %s %s %s %s %s %s %s %s)" % (
             copt(None if fl["sp"] is None else cs(fl["sp"])), copt(None if fl["rp"] is None else cs(fl["rp"])),
-            cZ(fl["bv"][0]), cZ(fl["bv"][1]), cbool(fl["st"]), cbool(fl["ro"]), cbool(fl["iso"]), cbool(fl["int"]),
+            cZ(_bvenc(fl["bv"][0])), cZ(_bvenc(fl["bv"][1])), cbool(fl["st"]), cbool(fl["ro"]), cbool(fl["iso"]), cbool(fl["int"]),
             cbool(fl["eid"]), cbool(fl["mol"]))
+        if len(v) > 4:
+            io = v[4]
+            return "VBipI %s (IFlags %s %s %s %s)" % (f, cs(io["isp"]), cs(io["irp"]), cs(io["dr"]), cbool(mol_attr))
         return "VBip %s %s %s" % (f, cbool(do_imp), cbool(mol_attr))
     if k == "sg":
         return "VSg %s %s" % (cbool(v[1]), cbool(v[2]))
@@ -498,7 +527,7 @@ def _oracle_view(H, vi, v, edges, mol, occ, ret):
     fails = []
     k = v[0]
     if k == "bip":
-        _, fl, do_imp, mol_attr = v
+        fl, do_imp, mol_attr = v[1], v[2], v[3]
         # the flag combinations that claim invertibility: ids and coefficients are exported
         if not (do_imp and fl["eid"] and fl["st"]):
             return fails
@@ -506,7 +535,7 @@ def _oracle_view(H, vi, v, edges, mol, occ, ret):
         try:
             G = _export_bip(H, fl)
             ret.append(G)
-            H2 = cv.bipartite_to_hypergraph(G, mol_attr=("mol" if mol_attr else None))
+            H2 = cv.bipartite_to_hypergraph(G, **_import_kwargs(v))
             ret.append(H2)
             e2 = _edges_of(H2)
             got = {s_: _molenc(m) for s_, m in H2.species_to_mol.items()}
@@ -723,13 +752,19 @@ RULES2 = [("r", "R2"), ("R1", "R2"), ("k_f", "k_r"), ("r", "r_1")]
 PREFIXES = [("S:", "R:"), (None, None), ("", "R:"), ("sp/", "rx/"), ("S:", None)]
 
 
+# values of the networkx `bipartite` marker (species, reaction): default, swapped, booleans, equal, negative, strings, mixed
+MARKERS = [(0, 1), (1, 0), (True, False), (False, True), (0, 0), (1, 1), (5, 7), (7, 5), (-1, 0), (2, 0), (0, 2),
+           ("species", "reaction"), ("r", "s"), ("x", "x"), (0, "r"), ("s", 0), ("0", "1")]
+IMPORT_OPTS = [dict(isp="R:", irp="S:", dr="r"), dict(isp="", irp="", dr="zz"), dict(isp="S:", irp="R:", dr=""), dict(isp="A", irp="r", dr="q")]
+
+
 def bflags(sp="S:", rp="R:", bv=(0, 1), st=True, ro=True, iso=True, int_=False, eid=True, mol=True):
     return dict(sp=sp, rp=rp, bv=list(bv), st=st, ro=ro, iso=iso, int=int_, eid=eid, mol=mol)
 
 
 def _invertible_flags(rng):
     sp, rp = rng.choice(PREFIXES)
-    return bflags(sp=sp, rp=rp, bv=rng.choice([(0, 1), (0, 1), (5, 7)]), st=True, ro=rng.random() < 0.5, iso=rng.random() < 0.5,
+    return bflags(sp=sp, rp=rp, bv=(0, 1) if rng.random() < 0.5 else rng.choice(MARKERS), st=True, ro=rng.random() < 0.5, iso=rng.random() < 0.5,
                   int_=rng.random() < 0.5, eid=True, mol=rng.random() < 0.7)
 
 
@@ -948,6 +983,20 @@ def _gen_cases(tier, rng):
             else:
                 eds.append(["mol", rng.choice(sp), rng.choice(["CC", ["i", 0], rng.choice(DEGENERATE_MOLS)])])
         cases.append(dict(kind="edit-in-place", net=net, views=_std_views(rng), edits=eds, views2=_std_views(rng), hist=rng.random() < 0.5))
+    # ---- node markers and import options: every marker pair (default, swapped, booleans, equal, strings, mixed) x id mode in
+    #      export -> import round trips (the importer classifies by `kind`; the marker is an opaque attribute it must ignore),
+    #      and non-default species_prefix / reaction_prefix / default_rule on the import side (irrelevant when `kind` is present)
+    for t in range(6 if quick else 30):
+        net = _rand_net(rng, nsp=rng.randint(2, 6), nrx=rng.randint(1, 6))
+        vs = []
+        for bv in MARKERS:
+            for int_ in (False, True):
+                vs.append(["bip", bflags(bv=bv, int_=int_, ro=rng.random() < 0.5, iso=rng.random() < 0.5), True, True])
+        for io in IMPORT_OPTS:
+            vs.append(["bip", bflags(bv=rng.choice(MARKERS), int_=rng.random() < 0.5), True, rng.random() < 0.8, io])
+            vs.append(["bip", bflags(sp=None, rp=None, int_=True), True, True, io])
+        rng.shuffle(vs)
+        cases.append(dict(kind="markers", net=net, views=vs, hist=(t % 3 == 2)))
     # ---- wrappers / facades of the converters: _as_bipartite (own defaults: integer ids), _as_species_graph, _CRNGraphBackend
     for t in range(10 if quick else 60):
         net = _rand_net(rng, nsp=rng.randint(1, 6), nrx=rng.randint(0, 6))
@@ -992,7 +1041,7 @@ def _gen_cases(tier, rng):
             for int_ in (False, True):
                 if int_ and (sp, rp) != ("S:", "R:"):
                     continue
-                vs_ = _all_bip_views(sp, rp, int_, (0, 1) if t % 2 == 0 else (5, 7))
+                vs_ = _all_bip_views(sp, rp, int_, (0, 1) if t % 2 == 0 else MARKERS[(3 * t + len(cases)) % len(MARKERS)])
                 if t % 2 == 1:
                     rng.shuffle(vs_)                      # non-default options first, defaults later (and the reverse)
                 cases.append(dict(kind="flag-sweep", net=net, views=vs_, hist=(t % 4 >= 2)))
